@@ -125,6 +125,15 @@ var schemas = map[string][]field{
 	"NhgNhKeyB":   {{"Index", "Index", kNat}, {"NextHop", "NextHop", kPtr("NhgNhB")}},
 	"NhgPayloadB": {{"BackupNextHopGroup", "BackupNextHopGroup", kPtr("UintValue")}, {"NextHop", "NextHop", kind{k: "list", s: "NhgNhKeyB", elemNN: true}}},
 	"NhgKeyB":     {{"Id", "Id", kNat}, {"NextHopGroup", "NextHopGroup", kPtrNN("NhgPayloadB")}},
+	"BoolValue":   {{"Value", "Value", kBool}},
+	"IfRefB":      {{"Interface", "Interface", kPtr("StringValue")}, {"Subinterface", "Subinterface", kPtr("UintValue")}},
+	"IpInIpB":     {{"SrcIp", "SrcIp", kPtr("StringValue")}, {"DstIp", "DstIp", kPtr("StringValue")}},
+	"PushedU":     {{"PushedMplsLabelStackUint64", "PushedMplsLabelStackUint64", kNat}},
+	"NhPayloadB": {{"IpAddress", "IpAddress", kPtr("StringValue")}, {"InterfaceRef", "InterfaceRef", kPtr("IfRefB")}, {"MacAddress", "MacAddress", kPtr("StringValue")}, {"IpInIp", "IpInIp", kPtr("IpInIpB")},
+		{"NetworkInstance", "NetworkInstance", kPtr("StringValue")}, {"PopTopLabel", "PopTopLabel", kPtr("BoolValue")}, {"PushedMplsLabelStack", "PushedMplsLabelStack", kind{k: "list", s: "PushedU", elemNN: true}},
+		{"DecapsulateHeader", "DecapsulateHeader", kEnum}, {"EncapsulateHeader", "EncapsulateHeader", kEnum}, {"EncapHeader", "EncapHeader", kNat}},
+	"NhKeyB":       {{"Index", "Index", kNat}, {"NextHop", "NextHop", kPtr("NhPayloadB")}},
+	"nextHopEntry": {{"ni", "ni", kStr}, {"pb", "pb", kPtrNN("NhKeyB")}, {"electionID", "electionID", kPtr("Uint128")}},
 	"ipv4Entry":         {{"pb", "pb", kPtrNN("Ipv4KeyB")}, {"ni", "ni", kStr}, {"electionID", "electionID", kPtr("Uint128")}},
 	"ipv6Entry":         {{"pb", "pb", kPtrNN("Ipv6KeyB")}, {"ni", "ni", kStr}, {"electionID", "electionID", kPtr("Uint128")}},
 	"labelEntry":        {{"ni", "ni", kStr}, {"pb", "pb", kPtrNN("LabelKeyB")}, {"electionID", "electionID", kPtr("Uint128")}},
@@ -209,6 +218,7 @@ var leanStruct = map[string]string{
 	"ElectionReqDetails": "ElectionReqDetails", "SessionParamReqDetails": "SessionParamReqDetails", "OpDetailsResults": "OpDetailsResults", "COpResult": "COpResult",
 	"AFTResultList": "(List AFTResultC)", "Bool": "Bool", "pendingQueue": "PendingQueue", "pendingEntry": "PendingEntry", "RibOpResult": "RibOpResult", "OrigTop": "OrigTop", "OrigNHGMember": "OrigNHGMember", "OrigNHG": "OrigNHG", "KeyRIB": "KeyRIB", "GPrefix": "GPrefix", "GLabel": "GLabel", "GId": "GId", "GIndex": "GIndex", "GAFTEntry": "GAFTEntry", "cache": "GetCache", "GetResponseG": "GetResponseG", "ReconEntS": "ReconEnt", "ReconEntN": "ReconEnt", "ReconAfts": "ReconAfts", "ReconNI": "ReconNI", "ReconOp": "ReconOp", "TblEntry": "TblEntry", "NewElem": "NewElem", "NewAfts": "NewAfts", "NewRIB": "NewRIB", "StringValue": "StringValue", "UintValue": "UintValue", "NewTop": "NewTop", "NewNHGMember": "NewNHGMember", "NewNHG": "NewNHG", "FlNHG": "FlNHG", "HolderG": "HolderG", "ErrView": "ErrView", "ClientErrG": "ClientErrG", "GStatus": "GStatus", "StrBox": "String", "ErrOptG": "ErrOptG", "UintBox": "Nat", "FlushErr": "FlushErr", "Nat": "Nat", "Status": "Status",
 	"BytesValue": "BytesValue", "TopEntryB": "TopEntryB", "Ipv4KeyB": "Ipv4KeyB", "Ipv6KeyB": "Ipv6KeyB", "PoppedU": "PoppedU", "LabelEntryB": "LabelEntryB", "LabelKeyB": "LabelKeyB", "NhgNhB": "NhgNhB", "NhgNhKeyB": "NhgNhKeyB", "NhgPayloadB": "NhgPayloadB", "NhgKeyB": "NhgKeyB", "AFTOperationB": "AFTOperationB", "AFTEntryB": "AFTEntryB", "FlushRequestB": "FlushRequestB",
+	"BoolValue": "BoolValue", "IfRefB": "IfRefB", "IpInIpB": "IpInIpB", "PushedU": "PushedU", "NhPayloadB": "NhPayloadB", "NhKeyB": "NhKeyB", "nextHopEntry": "NhBuilder",
 	"ipv4Entry": "Ipv4Builder", "ipv6Entry": "Ipv6Builder", "labelEntry": "LabelBuilder", "nextHopGroupEntry": "NhgBuilder",
 }
 
@@ -351,6 +361,8 @@ var oneofs = map[string][]oneofCase{
 		{"*spb.AFTOperation_Ipv6", "EntryB.Ipv6", []field{{"Ipv6", "Ipv6", kPtr("Ipv6KeyB")}}},
 		{"*spb.AFTOperation_Mpls", "EntryB.Mpls", []field{{"Mpls", "Mpls", kPtr("LabelKeyB")}}},
 		{"*spb.AFTOperation_NextHopGroup", "EntryB.NextHopGroup", []field{{"NextHopGroup", "NextHopGroup", kPtr("NhgKeyB")}}},
+		{"*spb.AFTOperation_NextHop", "EntryB.NextHop", []field{{"NextHop", "NextHop", kPtr("NhKeyB")}}},
+		{"*spb.AFTEntry_NextHop", "EntryB.NextHop", []field{{"NextHop", "NextHop", kPtr("NhKeyB")}}},
 		{"*spb.AFTEntry_Ipv4", "EntryB.Ipv4", []field{{"Ipv4", "Ipv4", kPtr("Ipv4KeyB")}}},
 		{"*spb.AFTEntry_Ipv6", "EntryB.Ipv6", []field{{"Ipv6", "Ipv6", kPtr("Ipv6KeyB")}}},
 		{"*spb.AFTEntry_Mpls", "EntryB.Mpls", []field{{"Mpls", "Mpls", kPtr("LabelKeyB")}}},
@@ -489,7 +501,7 @@ func init() {
 	for _, c := range strings.Fields("UNSET OK NON_ZERO_REFERENCE_REMAIN") {
 		knownCtors["FlushResult."+c] = true
 	}
-	for _, c := range strings.Fields("AFTType_INVALID AFTType_ALL AFTType_IPV4 AFTType_IPV6 AFTType_MPLS AFTType_NEXTHOP AFTType_NEXTHOP_GROUP AFTType_MAC AFTType_POLICY_FORWARDING") {
+	for _, c := range strings.Fields("EncapType_IPV4 EncapType_MPLS EncapType_UDPV6 AFTType_INVALID AFTType_ALL AFTType_IPV4 AFTType_IPV6 AFTType_MPLS AFTType_NEXTHOP AFTType_NEXTHOP_GROUP AFTType_MAC AFTType_POLICY_FORWARDING") {
 		knownCtors[c] = true
 	}
 	for _, c := range strings.Fields("AFTResult_UNSET AFTResult_FAILED AFTResult_RIB_PROGRAMMED AFTResult_FIB_PROGRAMMED AFTResult_FIB_FAILED") {
@@ -3541,8 +3553,12 @@ func trAssign(a *ast.AssignStmt, en env) env {
 					if rv.kd.k != "ptr" || !rv.kd.nn {
 						fail(a.Pos(), "assignment below %s of kind %s", render(root), rv.kd)
 					}
-					// the structs on the way, outermost first
+					// the structs on the way, outermost first; a pointer on the way that may be nil
+					// must be known non-nil on this path (the method allocated it, or tested it)
 					exprs := []string{atom(rv.lean)}
+					snames := []string{rv.kd.s}
+					nullable := []bool{false}
+					paths := []string{rv.path}
 					sname := rv.kd.s
 					var leaf field
 					for j, fn := range chain {
@@ -3551,12 +3567,25 @@ func trAssign(a *ast.AssignStmt, en env) env {
 							leaf = f
 							break
 						}
-						if f.kd.k != "ptr" || !f.kd.nn {
-							fail(a.Pos(), "assignment through %s.%s, which the schema does not declare never nil", sname, fn)
+						if f.kd.k != "ptr" {
+							fail(a.Pos(), "assignment through %s.%s of kind %s", sname, fn, f.kd)
 						}
-						exprs = append(exprs, exprs[len(exprs)-1]+"."+f.lean)
+						pth := paths[len(paths)-1] + "." + fn
+						if f.kd.nn {
+							exprs = append(exprs, exprs[len(exprs)-1]+"."+f.lean)
+						} else {
+							b, ok := en.bound[pth]
+							if !ok {
+								fail(a.Pos(), "assignment through %s, which may be nil", pth)
+							}
+							exprs = append(exprs, b)
+						}
+						nullable = append(nullable, !f.kd.nn)
+						paths = append(paths, pth)
 						sname = f.kd.s
+						snames = append(snames, sname)
 					}
+					leafPath := paths[len(paths)-1] + "." + chain[len(chain)-1]
 					nv := vals[i].lean
 					switch {
 					case leaf.kd.k == "ptr" && leaf.kd.nn:
@@ -3578,14 +3607,36 @@ func trAssign(a *ast.AssignStmt, en env) env {
 							fail(a.Pos(), "assignment of %s to %s of kind %s", vals[i].kd, r, leaf.kd)
 						}
 					}
+					// what was known about places below the assigned one is about the old value
+					for k := range en.bound {
+						if k == leafPath || strings.HasPrefix(k, leafPath+".") {
+							delete(en.bound, k)
+						}
+					}
+					for k := range en.isNil {
+						if k == leafPath || strings.HasPrefix(k, leafPath+".") {
+							delete(en.isNil, k)
+						}
+					}
+					if leaf.kd.k == "ptr" {
+						if b, ok := en.bound[vals[i].path]; ok {
+							en.bound[leafPath] = b
+						} else if vals[i].kd.k == "nilptr" || en.isNil[vals[i].path] {
+							en.isNil[leafPath] = true
+						}
+					}
 					upd := nv
 					for j := len(chain) - 1; j >= 0; j-- {
-						sn := rv.kd.s
-						for _, fn := range chain[:j] {
-							sn = fieldOf(sn, fn, a.Pos()).kd.s
-						}
-						f := fieldOf(sn, chain[j], a.Pos())
+						f := fieldOf(snames[j], chain[j], a.Pos())
 						upd = "{ " + exprs[j] + " with " + f.lean + " := " + upd + " }"
+						if j > 0 && nullable[j] {
+							// the changed struct one level up, behind a pointer that may be nil: named,
+							// so that later reads on this path see it
+							nm := fresh(strings.ToLower(chain[j-1]))
+							pendingLets = append(pendingLets, fmt.Sprintf("let %s : %s := %s", nm, leanStruct[snames[j]], upd))
+							en.bound[paths[j]] = nm
+							upd = "(some " + nm + ")"
+						}
 					}
 					n := fresh("pb")
 					pendingLets = append(pendingLets, fmt.Sprintf("let %s : %s := %s", n, leanStruct[rv.kd.s], upd))
@@ -4886,10 +4937,18 @@ func constMapDef(f *ast.File, name, lean string) (string, error) {
 						return "", fmt.Errorf("table %s: the value of constant %s could not be determined", name, kid.Name)
 					}
 					vsel, ok := kv.Value.(*ast.SelectorExpr)
-					if !ok || render(vsel.X) != "spb" {
-						return "", fmt.Errorf("table %s: value %s is not an enumeration constant of the protobuf package", name, render(kv.Value))
+					if !ok || (render(vsel.X) != "spb" && render(vsel.X) != "enums") {
+						return "", fmt.Errorf("table %s: value %s is not an enumeration constant of the protobuf packages", name, render(kv.Value))
 					}
-					body = fmt.Sprintf("if k = %s then %s else %s", kval, knownCtor(kv.Pos(), vsel.Sel.Name), body)
+					vname := vsel.Sel.Name
+					if render(vsel.X) == "enums" {
+						const pfx = "OpenconfigAftTypesEncapsulationHeaderType_OPENCONFIGAFTTYPESENCAPSULATIONHEADERTYPE_"
+						if !strings.HasPrefix(vname, pfx) {
+							return "", fmt.Errorf("table %s: value %s is not in the translator's table", name, render(kv.Value))
+						}
+						vname = "EncapType_" + strings.TrimPrefix(vname, pfx)
+					}
+					body = fmt.Sprintf("if k = %s then %s else %s", kval, knownCtor(kv.Pos(), vname), body)
 				}
 				// assigned anywhere else in the file?
 				var reassigned error
